@@ -11,7 +11,7 @@ use vcore::proto::{DistMsg, frame, read_pass_through, write_pass_through};
 use vcore::refval::RefVal;
 use vcore::report::Report;
 
-pub const RPC_GATES: [&str; 7] = ["rpc.after_alloc", "rpc.after_insert", "rpc.before_lock", "rpc.after_send", "rpc.after_wait", "route.send.miss", "conn.write.done"];
+pub const RPC_GATES: [&str; 8] = ["drv.step", "rpc.after_alloc", "rpc.after_insert", "rpc.before_lock", "rpc.after_send", "rpc.after_wait", "route.send.miss", "conn.write.done"];
 
 pub fn flags_default() -> u64 {
     edp_client::flags::DistributionFlags::default().as_u64()
@@ -84,9 +84,14 @@ fn execute(ch: &mut Chooser, ctx: &WorkerCtx, ncallers: usize, with_close: bool)
         nw.w.gates.set_active(&RPC_GATES);
         let results: Arc<Mutex<Vec<Option<CallResult>>>> = Arc::new(Mutex::new(vec![None; ncallers + 1]));
         let timeouts: Vec<Duration> = (0..=ncallers).map(|k| Duration::from_secs(10 * k as u64)).collect();
+        // cooperative-budget preemption: caller k may be left with 0..9 budget units for its call
+        let names: Vec<String> = (1..=ncallers).map(|k| format!("caller{}", k)).collect();
+        let steps: Vec<(&str, usize)> = names.iter().map(|n| (n.as_str(), 1usize)).collect();
+        crate::world::choose_budgets(ch, &steps, 10);
         for k in 1..=ncallers {
             let (node, results, t) = (nw.node.clone(), results.clone(), timeouts[k]);
             let h = tokio::spawn(async move {
+                crate::world::drv_step(&format!("caller{}", k)).await;
                 let r = node.rpc_call_raw_with_timeout(PEER_NAME, "m", "f", vec![OwnedTerm::Integer(k as i64)], t).await;
                 let cr = match r {
                     Ok(v) => CallResult::Ok(format!("{:?}", v)),
@@ -102,6 +107,7 @@ fn execute(ch: &mut Chooser, ctx: &WorkerCtx, ncallers: usize, with_close: bool)
         let mut replied = vec![0u32; ncallers + 1];
         let mut reply_to: Vec<Option<RefVal>> = vec![None; ncallers + 1];
         let mut unknown_sent = false;
+        let mut stale_sent = vec![false; ncallers + 1];
         let mut closed = false;
         let mut total_adv = Duration::ZERO;
         let mut armed: Vec<Option<Duration>> = vec![None; ncallers + 1];
@@ -122,6 +128,9 @@ fn execute(ch: &mut Chooser, ctx: &WorkerCtx, ncallers: usize, with_close: bool)
             let done_now: Vec<bool> = results.lock().unwrap().iter().map(|x| x.is_some()).collect();
             let parked = nw.w.gates.parked();
             let mut options: Vec<String> = parked.iter().map(|(_, t, l)| format!("run:{}@{}", t, l)).collect();
+            let mut pairs: Vec<(usize, usize)> = vec![];
+            for i in 0..parked.len() { for j in 0..parked.len() { if i != j && parked[i].1 != parked[j].1 && parked[i].1.starts_with("caller") && parked[j].1.starts_with("caller") { pairs.push((i, j)); options.push(format!("run-together:{}@{}+{}@{}", parked[i].1, parked[i].2, parked[j].1, parked[j].2)); } } }
+            let n_single = parked.len();
             for k in 1..=ncallers {
                 if reply_to[k].is_some() && !closed {
                     if replied[k] == 0 { options.push(format!("reply:{}", k)); } else if replied[k] == 1 { options.push(format!("dup_reply:{}", k)); }
@@ -135,6 +144,7 @@ fn execute(ch: &mut Chooser, ctx: &WorkerCtx, ncallers: usize, with_close: bool)
                 }
             }
             if !unknown_sent && !closed && step > 0 { options.push("reply_unknown".into()); }
+            for k in 1..=ncallers { if reply_to[k].is_some() && !closed && !stale_sent[k] && replied[k] == 0 { options.push(format!("reply_other_creation:{}", k)); } }
             if with_close && !closed { options.push("peer_close".into()); }
             if options.is_empty() { break; }
             // nothing but optional noise left and everyone is done: stop
@@ -143,7 +153,15 @@ fn execute(ch: &mut Chooser, ctx: &WorkerCtx, ncallers: usize, with_close: bool)
             let ev = options[c].clone();
             events.push(ev.clone());
             res.steps += 1;
-            if let Some(rest) = ev.strip_prefix("run:") {
+            if ev.starts_with("run-together:") {
+                let (i, j) = pairs[c - n_single];
+                for g in [i, j] {
+                    let (idx, task, label) = &parked[g];
+                    if *label == "rpc.after_send" { if let Some(k) = task.strip_prefix("caller").and_then(|s| s.parse::<usize>().ok()) { armed[k] = Some(total_adv); } }
+                    if *label == "route.send.miss" { if let Some(k) = in_flight.pop_front() { if k != 0 && reply_at[k].is_none() { reply_at[k] = Some(events.len()); } } }
+                    nw.w.gates.release(*idx);
+                }
+            } else if let Some(rest) = ev.strip_prefix("run:") {
                 let (idx, task, label) = &parked[c];
                 if *label == "rpc.after_send" { if let Some(k) = task.strip_prefix("caller").and_then(|s| s.parse::<usize>().ok()) { armed[k] = Some(total_adv); } }
                 let _ = rest;
@@ -156,6 +174,17 @@ fn execute(ch: &mut Chooser, ctx: &WorkerCtx, ncallers: usize, with_close: bool)
                 nw.peer.send(&reply_frame(reply_to[k].as_ref().unwrap(), k as i64));
                 replied[k] += 1;
                 in_flight.push_back(k);
+            } else if let Some(k) = ev.strip_prefix("reply_other_creation:") {
+                // a reply addressed to a pid with the same number and serial but another creation
+                // (an earlier incarnation of this node name): it is nobody's reply
+                let k: usize = k.parse().unwrap();
+                if let Some(RefVal::Pid { node, id, serial, creation }) = reply_to[k].clone() {
+                    let other = RefVal::Pid { node, id, serial, creation: creation.wrapping_add(1) };
+                    let m = DistMsg { control: RefVal::Tuple(vec![RefVal::int(2), RefVal::atom(""), other]), payload: Some(RefVal::Tuple(vec![RefVal::atom("rex"), RefVal::atom("for_another_incarnation")])) };
+                    nw.peer.send(&frame(&write_pass_through(&m), 4));
+                    in_flight.push_back(0);
+                }
+                stale_sent[k] = true;
             } else if ev == "reply_unknown" {
                 let to = RefVal::Pid { node: "me@127.0.0.1".into(), id: 999_999, serial: 0, creation: crate::world::EPMD_CREATION };
                 nw.peer.send(&reply_frame(&to, 4242));
@@ -240,6 +269,6 @@ pub fn run(rep: &Report) -> Value {
         "exhaustive": all.iter().all(|(_, s)| s.exhaustive),
         "scenarios": all.iter().map(|(n, s)| json!({"scenario": n, "executions": s.executions, "deviation_bound_completed": s.bound_completed, "distinct_outcomes": s.distinct_outcomes, "outcomes": s.outcomes, "max_decision_points": s.max_points, "unstable_failures_not_reported": s.unstable, "replay_divergences": s.diverged})).collect::<Vec<_>>(),
         "distinct_outcomes": all.iter().map(|(_, s)| s.distinct_outcomes).sum::<usize>(),
-        "rule": "stateless exploration of the real Node/Connection code on a single-threaded tokio runtime with a controller-owned clock, a scripted peer on loopback and gate hooks: at every decision point the enabled set = parked gates (rpc table steps, completed frame writes, route miss) + environment events (reply k, duplicated reply, reply to an unknown pid, timer k, peer close); all executions with at most `bound` non-default choices; states = complete executions",
+        "rule": "stateless exploration of the real Node/Connection code on a single-threaded tokio runtime with a controller-owned clock, a scripted peer on loopback and gate hooks: at every decision point the enabled set = parked gates (rpc table steps, completed frame writes, route miss) + environment events (reply k, duplicated reply, reply to an unknown pid, reply to the caller's pid under another creation, timer k, peer close), two callers made runnable in the same tick, and per-caller cooperative-budget preemption (0..9 units left); all executions with at most `bound` non-default choices; states = complete executions",
     })
 }
